@@ -667,6 +667,38 @@ example : (step false init (.add ".".toList ⟨9, 0⟩ 9)).2 = .obj ⟨true, "."
     (step false (step false init (.add ".".toList ⟨9, 0⟩ 9)).1 (.fetch "".toList)).2 =
       .obj ⟨true, ".".toList, ⟨9, 0⟩⟩ := by decide
 
+/-! ## empty path segments -/
+
+/-- **An empty path segment is always refused, on every tree**: `add` (and so `create` when it has
+to add) with an empty level before the last, `addNode` (and so `createNode` when it has to add)
+with any empty level, are rejected with ValueError and the identical tree — whatever else is in
+the store, and for every dotted variant of the name (leading/trailing dots are stripped first,
+so `"a..b"`, `".a..b."` are refused while `".a.b."` is `"a.b"`). -/
+theorem C18_empty_segment_rejected (root : Kids) (n : Str) (id : Oid) (tag : Nat) :
+    (n ≠ [] → initHasEmpty (levels n).1 (levels n).2 = true →
+      step false root (.add n id tag) = (root, .err .emptyLevel)) ∧
+    (anyEmpty (levels n).1 (levels n).2 = true →
+      step false root (.addNode n tag) = (root, .err .emptyLevel)) := by
+  constructor
+  · intro hn h
+    have : n.isEmpty = false := by cases n <;> simp_all
+    simp [step, add, this, h]
+  · intro h
+    simp [step, addNode, h]
+
+example : (step false init (.add "a..b".toList ⟨9, 0⟩ 9)) = (init, .err .emptyLevel) ∧
+    (step false init (.addNode ".a..b.".toList 9)) = (init, .err .emptyLevel) ∧
+    (step false init (.addNode "..".toList 9)) = (init, .err .emptyLevel) ∧
+    (step false init (.fetch "meta..x".toList)).2 = .none ∧
+    (step false init (.fetchNode "..meta..".toList)).2 = .obj ⟨false, "meta".toList, ⟨1, 1⟩⟩ := by
+  constructor
+  · exact (C18_empty_segment_rejected init _ _ _).1 (by decide) (by decide)
+  constructor
+  · exact (C18_empty_segment_rejected init _ ⟨0, 0⟩ _).2 (by decide)
+  constructor
+  · exact (C18_empty_segment_rejected init _ ⟨0, 0⟩ _).2 (by decide)
+  · decide
+
 end Ioflo.Store
 
 #print axioms Ioflo.Store.C18_lookup_pure
@@ -682,3 +714,4 @@ end Ioflo.Store
 #print axioms Ioflo.Store.C18_createNode_idem
 #print axioms Ioflo.Store.C18_legacy_counterexample
 #print axioms Ioflo.Store.C18_dicts_have_unique_keys
+#print axioms Ioflo.Store.C18_empty_segment_rejected
